@@ -85,7 +85,9 @@ func runC10HotJournal(c *core.Case, k int) {
 		dieAt = "spill"
 	}
 	dbWrites, dieAfter := 0, 1+c.Rng.IntN(2)
+	lastStep := ""
 	w.d.Hook = func(step string) error {
+		lastStep = step
 		if strings.HasPrefix(step, "db write page") {
 			dbWrites++
 		}
@@ -105,6 +107,7 @@ func runC10HotJournal(c *core.Case, k int) {
 	}
 	w.close() // descriptors closed: locks released, hot journal and uncommitted pages stay
 	detail["died_at"], detail["pages_written_before_death"] = dieAt, dbWrites
+	detail["spec"], detail["died_before_step"] = spec, lastStep
 	if p := mon.PosOf(P.Node, "db"); p != posA {
 		c.Violate("C10/setup", fmt.Sprintf("an unfinished transaction moved the position %s -> %s", posA, p), detail)
 		return
@@ -157,12 +160,23 @@ func runC10HotJournal(c *core.Case, k int) {
 	w2, err := newWriter(P.Node, "db", ps, false, mode, imgA, c.SubRng("w2"), led, 2)
 	if err == nil {
 		w2.d.BusyRetries = 2000
+		if !sqlitePlaybackRestores(mon.DBDir(P.Node, "db"), ps, imgA) {
+			// (SQLite's own playback would not get the committed image back from this
+			// journal either: a stale later segment right behind a header whose
+			// first record was never written, see C17)
+			c.Count("hot_sqlite_rules_would_not_restore_either", 1)
+			w2.close()
+			c.Distinct(fmt.Sprintf("hot/%s/%s/ps%d/unrestorable", mode, dieAt, ps))
+			return
+		}
 		_ = P.Store.DB("db").Recover(context.Background())
 		buf.Reset()
 		epos, eerr = P.Store.DB("db").Export(context.Background(), &buf)
 		w2.close()
 		if eerr != nil {
-			c.Violate("C10/export-failed", "after the hot journal was rolled back: "+eerr.Error(), detail)
+			raw := mon.RawImage(mon.DBDir(P.Node, "db"))
+			detail["raw_vs_committed"] = raw.Diff(imgA)
+			c.Violate("C10/export-failed", fmt.Sprintf("after the hot journal was rolled back: %v; database files vs committed image: %s (transaction %+v died before %q, %d pages before it)", eerr, raw.Diff(imgA), spec, lastStep, cur), detail)
 			return
 		}
 		if !bytes.Equal(buf.Bytes(), imgA.Bytes()) {
